@@ -493,7 +493,14 @@ class Interp:
         if isinstance(target, Opaque) or isinstance(val, Opaque | SVar):
             res = self.binop(opname, pyop, target, val, st)
         else:
-            res = pyop(target, val)
+            # concrete python objects: the in-place operator (mutable objects are updated in place)
+            iop = getattr(operator, 'i' + pyop.__name__.strip('_'), pyop)
+            try:
+                res = iop(target, val)
+            except (RaiseSignal, AnalysisError, PassThrough):
+                raise
+            except Exception as ex:  # noqa: BLE001
+                raise AnalysisError(f'concrete in-place {opname} failed at {self.where(st)}: {ex}') from None
         self.assign(st.target, res, env, mi)
 
     def st_If(self, st, env, mi):
@@ -962,6 +969,8 @@ class Interp:
                 raise
             except Exception as ex:  # noqa: BLE001
                 raise AnalysisError(f'concrete call {fn.name} failed at {self.where(node)}: {ex}') from None
+        if hasattr(fn, 'vp_call'):
+            return fn.vp_call(self, args, kwargs, node)
         if type(fn).__name__ == '_Partial':
             return self.call(fn.fn, [*fn.args, *args], {**fn.kwargs, **kwargs}, node)
         if isinstance(fn, Lambda):
